@@ -88,3 +88,8 @@ Print Assumptions C18_only_comments.
 Print Assumptions C18_idempotent.
 Print Assumptions C18_idempotent_file.
 Print Assumptions C18_status_after.
+Print Assumptions find_entry_lines.
+Print Assumptions noncomment_lines.
+Print Assumptions C18_comment_never_active.
+Print Assumptions C18_comment_never_entry.
+Print Assumptions C18_status.
